@@ -61,7 +61,7 @@ func modelRun(cfg nodeCfg) core.RunFunc {
 		if len(ops) > 40 {
 			ops = ops[:40]
 		}
-		e.SetSample(map[string]interface{}{"config": "NodeConfig (3 jobs; j1 drops drop_.* metrics; j2 drops keep=no and label drop_label)", "operations": ops})
+		e.SetSample(map[string]interface{}{"config": "NodeConfig (3 jobs; j1 drops drop_.* metrics; j2 rewrites code=200 to keep=no, drops keep=no and label drop_label)", "operations": ops})
 	}
 }
 
